@@ -62,7 +62,8 @@ CFG = dict(
          "returned (a request is waiting for a worker); (K) the write fault ACKNOWLEDGEMENT LOST: the Write of a call's request hands the envelope "
          "to the wire and then returns an error (context and read loop alive): exhaustive next to 0..2 ordinary calls, direct / Proxy / Demux, and "
          "in an eighth of (B); such a call may fail, its handler must not run twice (its handler entries are recorded as HStS n; its envelopes are "
-         "not judged by the wire predicates); every history judged by spec_c01",
+         "not judged by the wire predicates); (L) a server STREAM opened first on the same connection and kept open while unary calls run, its "
+         "messages delivered to the client before the unary replies (direct / Proxy / Demux); every history judged by spec_c01",
     assumptions=["payload bytes are identified by a 59-bit hash taken at the moment of each observation (a collision could hide, never "
                  "create, a difference)",
                  "handler invocation and call are linked by a request-metadata tag (sy-c), i.e. through the same envelope; plain calls "
